@@ -34,6 +34,7 @@ type World struct {
 	NFuncs   int
 	funcsMod []*ssa.Function // all functions (incl. anonymous) of production module packages
 	cg       *CallGraph
+	wp       *wholeProgram
 }
 
 // inProdScope reports whether a module package path belongs to the production scope.
